@@ -35,6 +35,7 @@ import warnings
 from collections.abc import Mapping, Sequence
 
 from pywbem import CIMInstance, CIMInstanceName, CIMClass, CIMClassName, \
+    CIMProperty, \
     CIMParameter, CIMError, CIM_ERR_NOT_FOUND, CIM_ERR_INVALID_PARAMETER, \
     CIM_ERR_INVALID_CLASS, CIM_ERR_METHOD_NOT_FOUND, cimtype, \
     ToleratedSchemaIssueWarning
@@ -365,9 +366,19 @@ class ProviderDispatcher(BaseProvider):
             # ModifiedInstance.
             for pn in property_list:
                 if pn not in modified_instance:
+                    cls_prop = creation_class.properties[pn]
+                    # Key properties cannot be modified, so they are not
+                    # reset to their class default.
+                    if cls_prop.qualifiers.get('key', False):
+                        continue
                     # If the property in the class does not have a default
-                    # value, it is None.
-                    modified_instance[pn] = creation_class.properties[pn].value
+                    # value, it is None. The type must be specified because
+                    # it cannot be inferred from None.
+                    modified_instance.properties[pn] = CIMProperty(
+                        cls_prop.name, cls_prop.value, type=cls_prop.type,
+                        is_array=cls_prop.is_array,
+                        embedded_object=cls_prop.embedded_object,
+                        reference_class=cls_prop.reference_class)
 
             # Remove properties from modified_instance that are not in
             # PropertyList.
